@@ -132,6 +132,12 @@ def replay(seed, opnames):
             from .observe import observe
             observe(u)
             continue
+        if n.startswith("<call, result dropped> "):
+            try:
+                table[n[len("<call, result dropped> "):]](u)
+            except Exception:  # noqa: BLE001
+                pass
+            continue
         u = table[n](u)
         out.append(u)
     return out
@@ -187,6 +193,29 @@ def task_expand(modname, chunk):
                         mod.state_invariant(acc, r, (trace[0], trace[1] + ["<observe all>", name]))
             except Exception:  # noqa: BLE001
                 acc.count("warm_pass_failed")
+        if getattr(mod, "PAIR_PASS", False) and not trace[1]:
+            # seed states only: every ordered pair of operations applied to ONE object (the first result is discarded); the
+            # second call sees whatever the first left in the object's cache
+            for n1, f1 in table:
+                for n2, f2 in table:
+                    acc.transitions += 1
+                    try:
+                        p_ = from_state(st)
+                        try:
+                            f1(p_)
+                        except Exception:  # noqa: BLE001
+                            pass
+                        r = f2(p_)
+                    except (ValueError, TypeError):
+                        continue
+                    except Exception as e:  # noqa: BLE001
+                        acc.count("foreign_exception")
+                        if edge_exc:
+                            edge_exc(acc, p_, n2, e, (trace[0], ["<call, result dropped> " + n1, n2]))
+                        continue
+                    if type(r) is impl.URL and r is not p_:
+                        acc.evals += 1
+                        getattr(mod, "pair_invariant", mod.state_invariant)(acc, r, (trace[0], ["<call, result dropped> " + n1, n2]))
         for oi, (name, fn) in enumerate(table):
             acc.transitions += 1
             try:
